@@ -65,6 +65,22 @@ Proof.
   intros Ha Hf. cbn [step]. rewrite Ha. unfold h_allocate. rewrite Hf. destruct (a_tid a =? tid)%N; reflexivity.
 Qed.
 
+(* an Allocate on a 5-tuple that holds an allocation: the only error answers are 420 (unknown comprehension-required
+   attribute), what authentication decides (400 / 401 / 438) and 437 *)
+Theorem allocate_held_error_codes cfg s src tid c tr lt fam df rp ep rt mt unk s' acts a code ch :
+  step cfg s (EReq src tid c (RqAllocate tr lt fam df rp ep rt mt) unk) = (s', acts) -> find_alloc src (allocs s) = Some a ->
+  In (Error src MAllocate tid code ch) acts ->
+  (unk = true /\ code = 420%N) \/ code = 437%N \/ code = 400%N \/ code = 401%N \/ code = 438%N.
+Proof.
+  intros H Hf Hin. destruct unk.
+  - cbn [step] in H. inversion H; subst. destruct Hin as [E|[]]. inversion E. auto.
+  - destruct (authenticate cfg s c) as [uid|code' ch'] eqn:Ha.
+    + rewrite (allocate_existing _ _ _ _ _ _ _ _ _ _ _ _ _ _ _ Ha Hf) in H. inversion H; subst.
+      destruct (a_tid a =? tid)%N; destruct Hin as [E|[]]; inversion E. auto.
+    + cbn [step] in H. rewrite Ha in H. inversion H; subst. destruct Hin as [E|[]]. inversion E; subst.
+      unfold authenticate in Ha. repeat (match type of Ha with context [match ?x with _ => _ end] => destruct x end); inversion Ha; auto.
+Qed.
+
 Theorem binding_truthful cfg s src tid c :
   step cfg s (EReq src tid c RqBinding false) = (s, [Success src MBinding tid [SMapped src]]).
 Proof. reflexivity. Qed.
